@@ -1160,7 +1160,15 @@ func (s *c13state) constructor() {
 		} else {
 			bv, _ := env.subst(vBuf)
 			pv, _ := env.subst(vPSK)
-			if _, isMake := bv.(*ssa.MakeSlice); !isMake {
+			if ap, isCall := bv.(*ssa.Call); isCall && isBuiltinCall(ap, "append") && len(ap.Call.Args) >= 1 && func() bool {
+				a0, _ := env.subst(ap.Call.Args[0])
+				return a0 == ssa.Value(psk) || a0 == pv && pv == ssa.Value(psk)
+			}() {
+				// append onto the caller's key slice: with spare capacity the salt is
+				// written behind the caller's key bytes and the hash input shares the
+				// caller's storage (a later change of that storage changes the key)
+				c.Bad(key+":own-storage", c13r1, p.InstrPos(stBuf), "the key-input buffer is append(<the constructor's key argument>, ...): when the argument has spare capacity the buffer aliases the caller's storage, the salt overwrites what follows the key there and later writes by the caller change PSK||salt")
+			} else if _, isMake := bv.(*ssa.MakeSlice); !isMake {
 				c.Undecided(key, c13r1, p.InstrPos(stBuf), "the key-input buffer is not built with make(): constructor shape not recognised")
 			} else {
 				d, isC := env.lenOf(bv).sub(env.lenOf(pv)).isConst()
